@@ -36,8 +36,18 @@ type endObservation struct {
 // judgeEnd: is the answer acceptable while the run is finishing?
 // finalBefore/finalAfter: had the run's final line been written just before /
 // just after the question was asked (other threads of the agent keep running).
-func judgeEnd(def *dagDef, o endObservation, id8 string, m markers, finalAfter bool) (state string, ok bool) {
+func judgeEnd(def *dagDef, o endObservation, id8 string, m markers, finalAfter, vanished bool) (state string, ok bool) {
 	st := o.st
+	// The reader lists the history files, the agent's compaction removes the original (after writing the
+	// compacted copy), the reader then stats / opens the file it had listed: a race between observer and
+	// agent that no hold produces — it happens when the question falls into that instant. One class.
+	if o.via != "GetCurrentStatus" && vanished && (st == nil || st.RequestID == "") &&
+		(o.err == nil || strings.Contains(o.err.Error(), "no such file")) {
+		return "history-file-vanished-under-reader", false
+	}
+	if o.err != nil && o.via == "GetLatestStatus" {
+		return "error", false
+	}
 	if st == nil {
 		return "nothing", false
 	}
@@ -187,6 +197,10 @@ func (hn *harness) endHold(g *group, mb member, verbose bool) error {
 		}
 	}
 	finalBefore := isFinal(runs[0].last())
+	hadOriginal := false
+	for _, f := range runs[0].Files {
+		hadOriginal = hadOriginal || !f.Compacted
+	}
 	stage := "before-final-line"
 	switch {
 	case before["unlink(history)"] > 0:
@@ -245,10 +259,14 @@ func (hn *harness) endHold(g *group, mb member, verbose bool) error {
 		_ = doRead(ll, d, def.Name, op, runs[0].last().RequestID)
 	}
 	ask("a client that has been watching the run (after a history read)", ll)
-	finalAfter := false
+	finalAfter, hasOriginal := false, false
 	if r2 := in.runsExcept(skip); len(r2) == 1 {
 		finalAfter = isFinal(r2[0].last())
+		for _, f := range r2[0].Files {
+			hasOriginal = hasOriginal || !f.Compacted
+		}
 	}
+	vanished := hadOriginal && !hasOriginal // the compaction removed the original while the questions were asked
 	mAfter := readMarkers(in.markers)
 
 	var fs []finding
@@ -263,11 +281,17 @@ func (hn *harness) endHold(g *group, mb member, verbose bool) error {
 		res.Nontrivial(vlib.Hash("end-hold", def.Name, stage, desc))
 		seen := map[string]bool{}
 		for _, o := range obs {
-			state, ok := judgeEnd(def, o, id8, mAfter, finalAfter)
+			state, ok := judgeEnd(def, o, id8, mAfter, finalAfter, vanished)
 			if ok {
 				continue
 			}
 			kind := "live/end-of-run/reported-" + state + "-while-finishing/at=" + desc
+			switch state {
+			case "history-file-vanished-under-reader":
+				kind = "live/end-of-run/latest-status-error/" + state
+			case "error":
+				kind = "live/end-of-run/latest-status-error/at=" + desc
+			}
 			if seen[kind] {
 				continue
 			}
